@@ -189,6 +189,57 @@ def lean_lemma(report):
                  detail="if every index below m is the number of an element of T other than cur (cur in T) then m + 1 <= |T|  " + detail))
 
 
+OCCUPANCY = [(256, 0), (255, 1), (255, 0), (254, 2), (200, 56), (128, 128), (1, 255), (0, 256), (256, 1), (255, 2), (200, 57), (0, 257), (1, 256)]
+
+
+def occupancy_jobs(tier):
+    return [(ne, na, v, ss) for (ne, na) in OCCUPANCY for (v, ss) in (((6, None), (10, None)) if tier == "quick" else ((2, None), (6, None), (8, None), (10, None), (10, False)))]
+
+
+def occupancy_case(job):
+    from .e2e import with_big_stack
+    return with_big_stack(_occupancy_case, job)
+
+
+def _occupancy_case(job):
+    """`ne` variables with explicitly requested ids (the highest ids first, so 255 is always taken) next to `na` automatic ones: exactly
+    256 slots in total must work (every variable its own cell, requested ids honoured), one more must be refused - with a PyTeal error."""
+    ne, na, version, ss = job
+    from vf.core import use_repo
+    use_repo()
+    import pyteal as pt
+    from spec import avm
+    out = {"job": list(job), "problems": [], "crash": None}
+    ids = list(range(255, 255 - ne, -1))
+    vars_ = [pt.ScratchVar(pt.TealType.uint64, i) for i in ids] + [pt.ScratchVar(pt.TealType.uint64) for _ in range(na)]
+    prog = pt.Seq(*[v.store(pt.Int(5000 + k)) for k, v in enumerate(vars_)], *[pt.Assert(v.load() == pt.Int(5000 + k)) for k, v in enumerate(vars_)], pt.Approve())
+    kw = {"optimize": pt.OptimizeOptions(scratch_slots=ss)} if ss is not None else {}
+    try:
+        teal = pt.compileTeal(prog, pt.Mode.Application, version=version, **kw)
+    except (pt.TealInternalError, pt.TealInputError, pt.TealCompileError) as e:
+        if ne + na <= 256:
+            out["problems"].append(f"{ne} requested + {na} automatic slots (<= 256) refused: {str(e)[:120]}")
+        return out
+    except RecursionError:
+        return out
+    except Exception as e:
+        out["crash"] = {"type": type(e).__name__, "message": str(e)[:120]}
+        out["problems"].append(f"{ne} requested + {na} automatic slots: compilation died with {type(e).__name__}: {str(e)[:120]}")
+        return out
+    if ne + na > 256:
+        out["problems"].append(f"{ne} requested + {na} automatic slots (> 256) accepted")
+        return out
+    res = avm.run(teal, avm.Ctx(budget=10 ** 7))
+    if res.verdict != "approve":
+        out["problems"].append(f"{ne} requested + {na} automatic slots: variables are not independent cells: {res.verdict} {res.detail}")
+    else:
+        for k, i in enumerate(ids):
+            if res.scratch.get(i) != 5000 + k:
+                out["problems"].append(f"requested slot {i} holds {res.scratch.get(i)} instead of {5000 + k}")
+                break
+    return out
+
+
 def limits(report):
     from vf.core import use_repo
     use_repo()
@@ -263,6 +314,14 @@ def run(report: Report, tier, seed):
                                   cases=len(ar), distinct_nontrivial=len(ar), failures=len(abad)))
     bad = [r for r in res if r["problems"]]
     fbad = [r for r in fl if r["problem"]]
+    from .abi_e2e import pool_map as _pm
+    oj = occupancy_jobs(tier)
+    orr = _pm(occupancy_case, oj)
+    obad = [r for r in orr if r["problems"]]
+    report.bounded.append(Bounded(function="compileTeal at full slot occupancy", contract="requested + automatic slots: exactly 256 work (own cells, requested ids honoured), 257 are refused with a PyTeal error",
+                                  bound=f"{len(OCCUPANCY)} (requested, automatic) splits around 256 incl. all 256 ids requested x versions / optimiser", cases=len(orr), distinct_nontrivial=len(OCCUPANCY), failures=len(obad)))
+    for b in obad[:2]:
+        report.violation(Violation(key=f"occupancy:{b['job'][0]}+{b['job'][1]}", what=b["problems"][0][:400], replay={"input": {"occupancy": b["job"]}}, confirmed_native=True))
     report.bounded.append(Bounded(function="compileTeal with n simultaneously live variables", contract="each variable returns the value last stored in it; explicit ids are the slots used (also through index() and DynamicScratchVar); more than 256 slots rejected",
                                   bound=f"n in {sizes} (auto / explicit / dynamically indexed, main routine and a subroutine) x versions 6, 8, 10 x optimiser / frame-pointer settings",
                                   cases=len(res), distinct_nontrivial=len(sizes), failures=len(bad)))
@@ -296,6 +355,12 @@ def replay(data):
     r = data["replay"]
     if isinstance(r, dict) and (r.get("native") or {}).get("input"):
         r = r["native"]["input"]
+    if "input" in r and isinstance(r["input"], dict) and "occupancy" in r["input"]:
+        r = r["input"]
+    if "occupancy" in r:
+        out = occupancy_case(tuple(r["occupancy"]))
+        print(out["problems"])
+        return 1 if out["problems"] else 0
     if "job" in r:
         out = many_vars_case(tuple(r["job"]))
         print(out["problems"])
